@@ -130,6 +130,12 @@ func (s zzLeafSnap) sameAs(c ResultContext, label string) {
 		zzvt.Assert(*c.Exception == *s.yielded, label)
 	}
 	zzvt.Assert(len(*c.StorageKeyVal) == len(s.kv), label)
+	for i := range s.kv {
+		if i < len(*c.StorageKeyVal) {
+			e := (*c.StorageKeyVal)[i]
+			zzvt.Assert(e.Key == s.kv[i].Key && zzvt.EqBytes(e.Value, s.kv[i].Value), label)
+		}
+	}
 	zzvt.Assert(c.PartialState.Bless == s.manager, label)
 }
 
@@ -170,13 +176,21 @@ func zzRichCtxN(nslots int) (OmegaInput, *Registers) {
 }
 
 // ZZ_C10_checkpoint: after `checkpoint`, one arbitrary state-changing host call on the working
-// context x (write, delete, solicit, forget, transfer, new, upgrade, eject or yield, with
+// context x (write, delete, solicit, forget, transfer, new, upgrade, eject, yield, or a
+// write/read/forget that consumes an entry of the raw key-value pool, with
 // arbitrary register arguments around valid inputs) leaves every leaf reachable from the
 // checkpoint y (account infos, storage, lookup records, preimages, transfers, yielded hash,
 // raw entries, privileges) exactly as it was when the checkpoint was taken.
 //zz:workers=16 paths=100000
 func ZZ_C10_checkpoint() {
+	zzWithRawPool = true
+	defer func() { zzWithRawPool = false }()
 	in, regs := zzRichCtx()
+	in.VM.Memory.Pages[16].Value[66] = 'p' // key of the pooled storage entry
+	in.VM.Memory.Pages[16].Value[160] = 9  // hash of the pooled lookup record (9,0,0,...)
+	for i := 161; i < 192; i++ {
+		in.VM.Memory.Pages[16].Value[i] = 0
+	}
 	out := checkpoint(in)
 	in.Addition = out.Addition
 	zzvt.Assert(out.ExitReason == ExitContinue && regs[7] == uint64(*in.VM.Gas), "checkpoint-returns-remaining-gas")
@@ -184,7 +198,7 @@ func ZZ_C10_checkpoint() {
 	snapX := zzSnapCtx(in.Addition.ResultContextX)
 	snapY.sameAs(in.Addition.ResultContextX, "checkpoint-copies-the-working-context")
 	_ = snapX
-	call := zzvt.Range("call", 0, 8)
+	call := zzvt.Range("call", 0, 11)
 	var res OmegaOutput
 	switch call {
 	case 0: // write a value
@@ -218,6 +232,15 @@ func ZZ_C10_checkpoint() {
 	case 8:
 		regs[7] = zzGuestBase + 32
 		res = yield(in)
+	case 9: // overwrite the storage entry that lives only in the raw pool
+		regs[7], regs[8], regs[9], regs[10] = zzGuestBase+66, 1, zzGuestBase+65, 1
+		res = write(in)
+	case 10: // read it (reading one's own pooled entry caches it and removes it from the pool)
+		regs[7], regs[8], regs[9], regs[10], regs[11], regs[12] = NONE, zzGuestBase+66, 1, zzGuestBase+300, 0, 2
+		res = read(in)
+	case 11: // forget the lookup record that lives only in the raw pool
+		regs[7], regs[8] = zzGuestBase+160, 3
+		res = forget(in)
 	}
 	zzvt.Assert(res.ExitReason == ExitContinue, "mutating-call-returns")
 	if regs[7] == OK || call <= 1 || call == 5 {
